@@ -1368,6 +1368,7 @@ namespace occa {
       if (!(nextKeyword.type() & keywordType::while_)) {
         tokenContext.printError("Expected [while] condition after [do]");
         success = false;
+        smntContext.popUp();
         delete &whileSmnt;
         return NULL;
       }
@@ -1400,6 +1401,7 @@ namespace occa {
       }
       ++tokenContext;
 
+      smntContext.popUp();
       return &whileSmnt;
     }
 
